@@ -8,7 +8,9 @@ Per case (constructor + parameters):
      predicate of coq/Spec/Preds.v evaluated by the extracted code (driver op 21);
  (c) is_minimal (extracted) of the implementation's result where the docstring promises the minimal DFA.
 from_substrings / from_finite_language: (b) + validity (+ (c) for from_finite_language), and additionally an all-words
-comparison (proved comparators of property 0) with the obvious NFA / trie built by this module."""
+comparison (proved comparators of property 0) with the obvious NFA / trie built by this module.
+from_substring / from_suffix: additionally (a') against the mirror model of the code itself (KMP failure table and
+transition loop, coq/Model/KMP.v, proved equal to the specification model): validity, dfa_diff, exact table."""
 from __future__ import annotations
 
 import itertools
@@ -30,6 +32,7 @@ SINK = object()
 # driver op codes (coq/Model/D15.v)
 OPS = {"from_prefix": 1, "from_suffix": 2, "from_substring": 3, "from_subsequence": 4, "of_length": 5,
        "count_mod": 6, "nth_from_start": 7, "nth_from_end": 8, "universal_language": 9, "empty_language": 10}
+OP_KMP, OP_KMP_TABLE, OP_AC = 11, 12, 13
 PROMISED_MINIMAL = {"from_prefix", "from_suffix", "from_substring", "from_subsequence", "of_length",
                     "nth_from_start", "nth_from_end", "from_finite_language", "universal_language", "empty_language"}
 
@@ -65,7 +68,7 @@ class Case:
         if self.kind == "from_substring":
             return f(S, k["p"], contains=k["contains"], must_be_suffix=k["must_be_suffix"])
         if self.kind == "from_substrings":
-            return f(S, set(k["pats"]), contains=k["contains"], must_be_suffix=k["must_be_suffix"])
+            return f(S, self.pat_set(), contains=k["contains"], must_be_suffix=k["must_be_suffix"])
         if self.kind == "of_length":
             cs = None if k["cs"] is None else set(k["cs"])
             return f(S, min_length=k["lo"], max_length=k["hi"], symbols_to_count=cs)
@@ -78,6 +81,12 @@ class Case:
         if self.kind == "from_finite_language":
             return f(S, set(k["lang"]), as_partial=k["as_partial"])
         return f(S)   # universal_language / empty_language
+
+    def pat_set(self):
+        """The very set object handed to from_substrings; its iteration order is the schedule the mirror model gets."""
+        if not hasattr(self, "_pat_set"):
+            self._pat_set = set(self.kw["pats"])
+        return self._pat_set
 
     def pred(self, w):
         """Independent Python predicate (w is a string over the alphabet)."""
@@ -198,6 +207,8 @@ def spec_nfa_substrings(pats, sy, must_be_suffix):
         trans[1] = {a + 1: {1} for a in syms}
         finals.add(1)
     for p in sorted(pats):
+        if any(sy(ch) >= sy.n for ch in p):
+            continue               # a pattern with a symbol outside the alphabet never occurs in a word over the alphabet
         cur = 0
         if p == "":
             finals.add(0)          # the empty pattern occurs in (and ends) every word
@@ -231,6 +242,11 @@ def spec_trie_dfa(lang, sy):
     states = sorted(trans)
     return [states, list(range(sy.n)), [[q, sorted([a, t] for a, t in trans[q].items())] for q in states], 0,
             sorted(ids[w] for w in lang), True]
+
+
+def canon_dfa_tree(t):
+    """Wire DFA with states, rows and final states in ascending order (as enc.enc_dfa writes the implementation's)."""
+    return [sorted(t[0]), t[1], sorted([q, sorted(row)] for q, row in t[2]), t[3], sorted(t[4])] + list(t[5:])
 
 
 def complemented(timpl):
@@ -283,7 +299,7 @@ class Runner:
         ctx = self.ctx
         prepared, reqs = [], []
         for c in cases:
-            sy = enc.SymMap(c.sigma, extra=c.kw.get("s", ""))
+            sy = enc.SymMap(c.sigma, extra=c.kw.get("s", "") + "".join(c.kw.get("pats", ())))
             r = outcome(c.call)
             K = word_bound(c.sigma, ctx.tier)
             info = {"case": c, "sy": sy, "r": r, "K": K, "slots": {}}
@@ -297,6 +313,19 @@ class Runner:
             if c.kind in OPS:
                 info["slots"]["ctor"] = len(reqs)
                 reqs.append((15, OPS[c.kind], enc.tree([c.params(sy), [] if timpl is None else [timpl]])))
+            if c.kind == "from_substrings":
+                # the mirror model of the Aho-Corasick construction (coq/Model/AhoCorasick.v, driver op 13), fed with
+                # the patterns in the iteration order of the set the implementation was given
+                info["slots"]["ac"] = len(reqs)
+                order = list(c.pat_set())
+                info["pat_order"] = order
+                ap = [list(range(sy.n)), [sy.word(p) for p in order], c.kw["contains"], c.kw["must_be_suffix"]]
+                reqs.append((15, OP_AC, enc.tree([ap, [] if timpl is None else [timpl]])))
+            if c.kind in ("from_substring", "from_suffix"):
+                # the mirror model of the code itself (KMP table + transition loop, coq/Model/KMP.v, driver op 11)
+                info["slots"]["kmp"] = len(reqs)
+                kp = [list(range(sy.n)), sy.word(c.kw["p"]), c.kw["contains"], c.kw.get("must_be_suffix", True)]
+                reqs.append((15, OP_KMP, enc.tree([kp, [] if timpl is None else [timpl]])))
             if timpl is not None:
                 if c.kind not in OPS:
                     info["slots"]["vm"] = len(reqs)
@@ -362,6 +391,37 @@ class Runner:
                 ctx.tally("table_differs_language_equal")
             elif info["canonical"]:
                 ctx.tally("table_identical")
+            # ---- (a') against the mirror model of the KMP construction ----
+            if "kmp" in ans:
+                mirror = enc.dec_res(ans["kmp"][0])
+                if mirror[0] != "ok":
+                    self.violation(f"{fam}:kmp-mirror-fails", f"{c.kind}{c.kw}: the KMP mirror model fails with {mirror} "
+                                   "(Coq: C15_kmp_faithful says it never does)", dict(rp, correspondence="C15/kmp-mirror"),
+                                   confirmed=False)
+                else:
+                    ctx.tally("kmp_mirror_compared")
+                    kdiff = enc.dec_res(ans["kmp"][1][1])
+                    if enc.tree(mirror[1]) != enc.tree(tmodel):
+                        self.violation(f"{fam}:kmp-mirror-vs-spec-model", f"{c.kind}{c.kw}: extracted KMP mirror model and "
+                                       "specification model differ (C15_kmp_faithful proves them equal: build problem)",
+                                       dict(rp, correspondence="C15/kmp-mirror"), confirmed=False)
+                    if kdiff[0] != "ok":
+                        self.violation(f"{fam}:comparator", f"{c.kind}: comparator failed {kdiff}", rp, confirmed=False)
+                    elif kdiff[1]:
+                        w = sy.unword(kdiff[1][0])
+                        got, want = d.accepts_input(w), c.pred(w)
+                        if got != want:
+                            problems.append(("language", f"accepts_input({w!r}) = {got}, the specified predicate gives {want}"))
+                        else:
+                            self.violation(f"{fam}:kmp-mirror-vs-impl-unconfirmed",
+                                           f"{c.kind}{c.kw}: comparator reports word {w!r} against the KMP mirror model but "
+                                           "implementation and predicate agree on it (model problem)",
+                                           dict(rp, correspondence="C15/kmp-mirror"), confirmed=False)
+                    elif info["canonical"] and enc.tree(mirror[1]) != enc.tree(info["timpl"]):
+                        ctx.structural += 1
+                        ctx.tally("kmp_mirror_table_differs_language_equal")
+                    elif info["canonical"]:
+                        ctx.tally("kmp_mirror_table_identical")
         else:
             valid_impl, minimal = ans["vm"]
             sp = ans["spec"]
@@ -383,6 +443,33 @@ class Runner:
                                    dict(rp, correspondence="C15/spec-automaton"), confirmed=False)
             else:
                 ctx.tally("all_words_equal_to_spec_automaton")
+            # ---- against the mirror model of the Aho-Corasick construction ----
+            if "ac" in ans:
+                mirror = enc.dec_res(ans["ac"][0])
+                if mirror[0] != "ok":
+                    self.violation(f"{fam}:ac-mirror-fails", f"{c.kind}{c.kw}: the Aho-Corasick mirror model fails with {mirror}",
+                                   dict(rp, correspondence="C15/ac-mirror", pattern_order=info["pat_order"]), confirmed=False)
+                else:
+                    ctx.tally("ac_mirror_compared")
+                    adiff = enc.dec_res(ans["ac"][1][1])
+                    if adiff[0] != "ok":
+                        self.violation(f"{fam}:comparator", f"{c.kind}: comparator failed {adiff}", rp, confirmed=False)
+                    elif adiff[1]:
+                        w = sy.unword(adiff[1][0])
+                        got, want = d.accepts_input(w), c.pred(w)
+                        if got != want:
+                            problems.append(("language", f"accepts_input({w!r}) = {got}, the specified predicate gives {want}"))
+                        else:
+                            self.violation(f"{fam}:ac-mirror-vs-impl-unconfirmed",
+                                           f"{c.kind}{c.kw}: comparator reports word {w!r} against the Aho-Corasick mirror model "
+                                           "but implementation and predicate agree on it (model problem)",
+                                           dict(rp, correspondence="C15/ac-mirror", pattern_order=info["pat_order"]), confirmed=False)
+                    elif info["canonical"] and enc.tree(canon_dfa_tree(mirror[1])) != enc.tree(info["timpl"]):
+                        # state labels are fixed by the insertion order, so the tables must coincide literally
+                        ctx.structural += 1
+                        ctx.tally("ac_mirror_table_differs_language_equal")
+                    elif info["canonical"]:
+                        ctx.tally("ac_mirror_table_identical")
         if not valid_impl:
             problems.append(("valid", "result does not satisfy the DFA validity rules"))
         # ---- (b) predicate level ----
@@ -541,11 +628,65 @@ def known_finding_reproducer(ctx):
                            "kwargs": repr(dict(pats=frozenset({"", "aa"}), contains=True, must_be_suffix=True))})
 
 
+FOREIGN_REPRO = [("a", ("bb", "aa")), ("a", ("ba", "aa")), ("a", ("c", "bb", "aaa")), ("ab", ("cc", "ab", "a"))]
+
+
+def foreign_symbol_reproducer(ctx):
+    """from_substrings (not must_be_suffix) with a pattern that has a symbol outside the alphabet (open finding):
+    the goto loop never visits the nodes behind that symbol, `end_state = len(transitions)` collides with a label."""
+    for k in ctx.known:
+        if k["id"] != "substrings_pattern_symbol_outside_alphabet":
+            continue
+        k["_match"] = lambda rp: rp.get("kind") == "from_substrings" and rp.get("foreign_symbol")
+        witness = None
+        for sigma, pats in FOREIGN_REPRO:
+            for contains in (True, False):
+                r = outcome(lambda: DFA.from_substrings(set(sigma), set(pats), contains=contains))
+                if r[0] == "err":
+                    witness = (sigma, pats, contains, "raises " + r[2])
+                    break
+                for n in range(7):
+                    for t in itertools.product(sigma, repeat=n):
+                        w = "".join(t)
+                        if r[1].accepts_input(w) != (any(p in w for p in pats) == contains):
+                            witness = (sigma, pats, contains, w)
+                            break
+                    if witness:
+                        break
+                if witness:
+                    break
+            if witness:
+                break
+        if witness and witness[3] is not None and not str(witness[3]).startswith("raises"):
+            # the mirror model follows the code into the defect: same table on the failing input
+            sigma, pats, contains, _ = witness
+            pset = set(pats)
+            d = DFA.from_substrings(set(sigma), pset, contains=contains)
+            sy = enc.SymMap(sigma, extra="".join(pats))
+            timpl = enc.enc_dfa(d, lambda q: q, sy)
+            ap = [list(range(sy.n)), [sy.word(p) for p in pset], contains, False]
+            ans = ctx.driver.batch([(15, OP_AC, enc.tree([ap, [timpl]]))])[0]
+            mirror = enc.dec_res(ans[0])
+            same = mirror[0] == "ok" and enc.tree(canon_dfa_tree(mirror[1])) == enc.tree(timpl)
+            ctx.tally("known_foreign_symbol_defect_mirror_table_" + ("identical" if same else "differs"))
+        if k["status"] == "open":
+            if witness:
+                ctx.tally("known_foreign_symbol_defect_reproduced")
+                ctx.report_known(k)
+            else:
+                ctx.notes.append("known finding substrings_pattern_symbol_outside_alphabet no longer reproduces")
+        elif witness:
+            ctx.violation("fixed finding substrings_pattern_symbol_outside_alphabet reproduces again: %r" % (witness,),
+                          {"kind": "from_substrings", "sigma": witness[0], "foreign_symbol": True,
+                           "kwargs": repr(dict(pats=frozenset(witness[1]), contains=witness[2], must_be_suffix=False))})
+
+
 def run(ctx):
     ctx.rule = RULE
     rng = ctx.rng
     R = Runner(ctx)
     known_finding_reproducer(ctx)
+    foreign_symbol_reproducer(ctx)
     thorough = ctx.tier == "thorough"
     cases = []
     for sigma in ("a", "ab", "abc"):
@@ -566,6 +707,19 @@ def run(ctx):
         for c in (True, False):
             for m in (False, True):
                 cases.append(Case("from_substrings", sigma, pats=pats, contains=c, must_be_suffix=m))
+    # pattern sets with a symbol outside the alphabet: must_be_suffix only (the theorem C15_from_substrings_suffix_lang
+    # needs no hypothesis on the patterns; the other mode is the open finding substrings_pattern_symbol_outside_alphabet)
+    foreign_open = any(k["id"] == "substrings_pattern_symbol_outside_alphabet" and k["status"] == "open" for k in ctx.known)
+    for i in range(ctx.n(40, 600)):
+        sigma = rng.choice(["a", "ab", "ab"])
+        pats = set(rand_pattern_set(rng, sigma, 3))
+        for _ in range(rng.randint(1, 2)):
+            base = rng.choice(sorted(pats))
+            j = rng.randint(0, len(base))
+            pats.add(base[:j] + rng.choice("yz") + base[j:][:2])
+        for c in (True, False):
+            for m in ((True,) if foreign_open else (True, False)):
+                cases.append(Case("from_substrings", sigma, pats=frozenset(pats), contains=c, must_be_suffix=m))
     # from_finite_language
     for sigma in ("a", "ab"):
         for ap in (True, False):
@@ -602,6 +756,7 @@ def run(ctx):
 
 def replay(ctx, case):
     c = Case(case["kind"], case["sigma"], **load_def(case["kwargs"]))
+    foreign_symbol_reproducer(ctx)
     r = outcome(c.call)
     print("call: DFA.%s alphabet=%r kwargs=%s" % (c.kind, c.sigma, c.kw))
     if r[0] == "ok":
@@ -617,6 +772,12 @@ def replay(ctx, case):
         sy = enc.SymMap(c.sigma, extra=c.kw.get("s", ""))
         m = ctx.driver.batch([(15, OPS[c.kind], enc.tree([c.params(sy), []]))])[0]
         print("model:", m[0])
+        if c.kind in ("from_substring", "from_suffix"):
+            kp = [list(range(sy.n)), sy.word(c.kw["p"]), c.kw["contains"], c.kw.get("must_be_suffix", True)]
+            m, t = ctx.driver.batch([(15, OP_KMP, enc.tree([kp, []])), (15, OP_KMP_TABLE, enc.tree([sy.word(c.kw["p"])]))])
+            print("KMP mirror model:", m[0])
+            tt = enc.dec_res(t)
+            print("KMP failure table of the mirror model:", [v - 1 for v in tt[1]] if tt[0] == "ok" else tt)
     known_finding_reproducer(ctx)
     Runner(ctx).run_cases([c])
     print("replay:", "VIOLATION reproduced" if ctx.violations else "no disagreement")
